@@ -8,6 +8,7 @@ import (
 	"fmt"
 	"os"
 	"path/filepath"
+	"reflect"
 	"runtime/debug"
 	"strings"
 	"syscall"
@@ -41,6 +42,34 @@ func ParseSQL(q string) (interface{}, error) {
 type Engine struct {
 	Dir  string
 	Sess *engine.Session
+	// the rows of the last few SELECTs exactly as the executor handed them out (not copied), each next
+	// to a copy taken at once: a result belongs to the caller, later statements must not change it
+	kept []keptResult
+}
+
+type keptResult struct {
+	sql  string
+	raw  []*storage.Row
+	snap [][]interface{}
+	ids  []uint32
+}
+
+// ErrResultChanged: the rows an earlier SELECT returned were altered by a later statement.
+var ErrResultChanged = fmt.Errorf("the rows returned by an earlier SELECT were changed by a later statement")
+
+func (e *Engine) checkKept(now string) error {
+	for _, k := range e.kept {
+		for i, r := range k.raw {
+			same := len(r.Vals) == len(k.snap[i]) && r.RowID == k.ids[i]
+			for j := 0; same && j < len(r.Vals); j++ {
+				same = reflect.DeepEqual(r.Vals[j], k.snap[i][j])
+			}
+			if !same {
+				return fmt.Errorf("%w: row %d of the result of %q read %v (row id %d) when it was returned and reads %v (row id %d) after %q", ErrResultChanged, i, k.sql, k.snap[i], k.ids[i], r.Vals, r.RowID, now)
+			}
+		}
+	}
+	return nil
 }
 
 // FreshDir empties (or creates) dir and makes it the working directory:
@@ -122,6 +151,19 @@ func (e *Engine) Query(q string) (*Result, error) {
 		rows, fields, err := engine.EvaluateSelect(sel, e.Sess.RelationService)
 		if err != nil {
 			return err
+		}
+		if err := e.checkKept(q); err != nil {
+			return err
+		}
+		if len(rows) <= 64 {
+			k := keptResult{sql: q, raw: rows}
+			for _, r := range rows {
+				k.snap = append(k.snap, append([]interface{}{}, r.Vals...))
+				k.ids = append(k.ids, r.RowID)
+			}
+			if e.kept = append(e.kept, k); len(e.kept) > 3 {
+				e.kept = e.kept[1:]
+			}
 		}
 		res = &Result{}
 		for _, f := range fields {
